@@ -43,7 +43,7 @@ example : Reachable (runOps State.init [.open, .open, .close 1, .close 1, .close
     (runOps State.init [.open, .open, .close 1, .close 1, .close 0]).uCloses = 1 ∧
     (runOps State.init [.open, .open, .close 1, .close 1]).uCloses = 0 := by
   refine ⟨?_, by decide, by decide⟩
-  exact Reachable.step _ (Reachable.step _ (Reachable.step _ (Reachable.step _ (Reachable.step _ (Reachable.init false)
+  exact Reachable.step _ (Reachable.step _ (Reachable.step _ (Reachable.step _ (Reachable.step _ (Reachable.init false 0)
     (by decide)) (by decide)) (by decide)) (by decide)) (by decide)
 
 /-- The hypothesis of `Reachable` (no handle is requested for a connection that is already closed)
@@ -66,13 +66,14 @@ fail — in every reachable state (either kind of underlying connection, whateve
 operation: reads, writes, `SetReadDeadline`, `SetWriteDeadline`, `SetDeadline` (`Op.isIOOn`): the result is the same
 as without the close, or (fix F33: a wrapper that armed the shared write deadline clears it when it goes) a write
 that timed out under that deadline succeeds now (`SameOrCleared`); and it IS the same whenever no write deadline was
-armed on the connection. -/
+armed on any connection of the ufrag (`State.reg`).  Any number of TCP connections per ufrag, whichever of them
+refuse `SetWriteDeadline`. -/
 theorem C13_sibling_independent {s : State} (hr : Reachable s) {h : Nat} (hlt : h < s.handles.length) :
     (∀ op, Op.isIOOn h op = true → (step (step s (.close h)).1 op).2 = Out.errClosed)
     ∧ (∃ hd, (step s (.close h)).1.handles[h]? = some hd ∧ hd.closed = true ∧ hd.pending = 0)
     ∧ (∀ g op, g ≠ h → Op.isIOOn g op = true →
         SameOrCleared (step s op).2 (step (step s (.close h)).1 op).2
-        ∧ (s.wdlPast = false → (step (step s (.close h)).1 op).2 = (step s op).2)) := by
+        ∧ ((∀ c, s.reg c = false) → (step (step s (.close h)).1 op).2 = (step s op).2)) := by
   refine ⟨fun op hop => (own_io_fails hr hlt hop).1, (own_io_fails hr hlt (op := .write h) (by simp [Op.isIOOn])).2,
     fun g op hne hop => sibling_independent hr hne hop⟩
 
@@ -96,7 +97,7 @@ theorem C13_abort_sibling_independent {s : State} (hr : Reachable s) {h : Nat} (
     ∧ (∃ hd, (step s (.abort h)).1.handles[h]? = some hd ∧ hd.closed = true ∧ hd.pending = 0)
     ∧ (∀ g op, g ≠ h → Op.isIOOn g op = true →
         SameOrCleared (step s op).2 (step (step s (.abort h)).1 op).2
-        ∧ (s.wdlPast = false → (step (step s (.abort h)).1 op).2 = (step s op).2)) := by
+        ∧ ((∀ c, s.reg c = false) → (step (step s (.abort h)).1 op).2 = (step s op).2)) := by
   refine ⟨fun op hop => (abort_own_io_fails hr hlt hop).1,
     (abort_own_io_fails hr hlt (op := .write h) (by simp [Op.isIOOn])).2,
     fun g op hne hop => abort_sibling_independent hr hne hop⟩
@@ -112,7 +113,7 @@ example :
     ∧ (step (runOps s [.abort 0, .open]) (.write 2)).2 = Out.ok
     ∧ (step (runOps s [.setwd 0 true]) (.write 1)).2 = Out.errTimeout
     ∧ (step (runOps s [.setwd 0 true, .close 0]) (.write 1)).2 = Out.ok := by
-  refine ⟨Reachable.step _ (Reachable.step _ (Reachable.init true) (by decide)) (by decide), ?_, ?_, ?_, ?_, ?_, ?_⟩ <;> decide
+  refine ⟨Reachable.step _ (Reachable.step _ (Reachable.init true 0) (by decide)) (by decide), ?_, ?_, ?_, ?_, ?_, ?_⟩ <;> decide
 
 /-- The write-deadline register of the underlying connection is armed only while an OPEN handle holds the deadline
 (its `writeDeadlineArmed` is set), or after the last handle has gone: a deadline does not outlive the handle that
@@ -127,7 +128,7 @@ theorem C13_deadline_not_outlive {s : State} (hr : Reachable s) (hw : s.wdlPast 
 
 example : ∃ s, Reachable s ∧ s.wdlPast = true ∧ nHeld s.handles = 1 :=
   ⟨runOps (State.initK true) [.open, .open, .setwd 1 true],
-   Reachable.step _ (Reachable.step _ (Reachable.step _ (Reachable.init true) (by decide)) (by decide)) (by decide),
+   Reachable.step _ (Reachable.step _ (Reachable.step _ (Reachable.init true 0) (by decide)) (by decide)) (by decide),
    by decide, by decide⟩
 
 /-- Every behaviour of the handle model passes the spec monitor that the driver runs on the
@@ -136,10 +137,13 @@ underlying connection, all operations incl. the three deadline setters and `abor
 observations produced by the model are accepted clause by clause by `sharedViolation` (underlying
 closed exactly at the last distinct close, repeated closes inert, own I/O fails after close / abort and its
 parked reads are released, sibling I/O never fails as closed, a read times out only under the handle's own read
-deadline, a write only under a write deadline that an OPEN handle holds).  Full statement again since fix F33. -/
-theorem C13_shared_monitor (fwd : Bool) (ops : List Op) (hl : legalRun (State.initK fwd) ops = true) :
-    sharedHistViolation {} (traceOf (State.initK fwd) ops) = none :=
-  monitor_run ops (Reachable.init fwd) (rel_init fwd) hl
+deadline, a write only under a write deadline that an OPEN handle holds — on every connection of the ufrag that has
+never refused a deadline call, with `k` scripted TCP connections any of which may start / stop refusing
+`SetWriteDeadline` at any time; results of deadline setters, `abortIO` and `Close` may be the refusing connection's
+error only while one refuses).  Full statement again since fix F33. -/
+theorem C13_shared_monitor (fwd : Bool) (k : Nat) (ops : List Op) (hl : legalRun (State.initK fwd k) ops = true) :
+    sharedHistViolation (SMon.initK k) (traceOf (State.initK fwd k) ops) = none :=
+  monitor_run ops (Reachable.init fwd k) (rel_init fwd k) hl
 
 -- regression example: the trace that was rejected before the fix
 example :
@@ -156,8 +160,20 @@ example : legalRun (State.initK false) [.open, .open, .setwd 0 true, .write 1, .
     ∧ legalRun (State.initK true) [.open, .open, .setwd 0 true, .write 1, .setd 1 false, .setrd 0 true, .read 0, .write 1, .abort 0, .write 1] = true := by
   decide
 -- the monitor does reject a deadline that outlived its handle
-example : (sharedHistViolation {} [.opened 0, .opened 1, .aborted 0 .ok 0 0, .io 1 .write .errTimeout]).isSome = true
-    ∧ sharedHistViolation {} [.opened 0, .opened 1, .dl 0 false true true .ok, .io 1 .write .errTimeout] = none := by decide
+example : (sharedHistViolation {} [.opened 0, .opened 1, .aborted 0 .ok 0 0, .io 1 .write 0 .errTimeout]).isSome = true
+    ∧ sharedHistViolation {} [.opened 0, .opened 1, .dl 0 false true true .ok, .io 1 .write 0 .errTimeout] = none := by decide
+-- several connections, one refusing `SetWriteDeadline` while handle 0 arms and goes (seeded mutant
+-- `C13-tcp-setwd-first-error-return`): in the model every healthy connection is clear afterwards, only the refusing one
+-- may keep a deadline; the monitor accepts the model's trace, and rejects a timeout on a healthy connection
+example :
+    let ops : List Op := [.open, .open, .setd 0 true, .refuse 7 true, .close 0, .write 1 0, .write 1 3, .write 1 6, .write 1 7]
+    legalRun (State.initK true 8) ops = true
+    ∧ (List.range 7).all (fun c => (runOps (State.initK true 8) (ops.take 5)).reg c == false) = true
+    ∧ (runOps (State.initK true 8) (ops.take 5)).reg 7 = true
+    ∧ (step (runOps (State.initK true 8) (ops.take 4)) (.close 0)).2 = Out.closedErr 0 0
+    ∧ sharedHistViolation (SMon.initK 8) (traceOf (State.initK true 8) ops) = none := by decide
+example : (sharedHistViolation (SMon.initK 8) [.opened 0, .opened 1, .dl 0 true true true .ok, .fault 7 true, .closedErr 0 0 0,
+    .io 1 .write 3 .errTimeout]).isSome = true := by decide
 example : sharedHistViolation {} [.opened 0, .opened 1, .closed 0 1 0]
     = some "underlying connection closed while sibling handles are open" := by decide
 
